@@ -140,30 +140,28 @@ def scan(m: core.Mod) -> list[Site]:
 # Intentional state drops, confirmed by reading (DESIGN 3/F1).  Key:
 # (function, callee kind, source expr, field) -> reason.
 DROPS: dict[tuple[str, str, str, str], str] = {
-    ("DateTime.naive", "DT", "self", "tzinfo"): "naive() removes the zone by definition",
-    ("DateTime.naive", "DT", "self", "fold"): "a zone-less value has no ambiguity to resolve",
-    ("DateTime.add", "DT", "self", "tzinfo"): "clock copy: the arithmetic is done on naive fields, the zone is re-attached below",
-    ("DateTime.add", "DT", "self", "fold"): "clock copy for arithmetic; fold of the result comes from convert()",
-    ("DateTime.add", "CREATE", "dt", "fold"): "calendar branch: the wall time is re-resolved with the documented default fold",
-    ("DateTime.add", "DT", "dt", "fold"): "UTC intermediate: UTC has no repeated times",
-    ("DateTime.__sub__", "NAIVE", "other", "fold"): "naive operand: fold plays no role in naive subtraction",
-    ("DateTime.__rsub__", "NAIVE", "other", "fold"): "naive operand: fold plays no role in naive subtraction",
-    ("Interval.__init__", "DT", "start", "fold"): "copy only feeds precise_diff's calendar decomposition (wall fields)",
-    ("Interval.__init__", "DT", "end", "fold"): "copy only feeds precise_diff's calendar decomposition (wall fields)",
-    ("from_timestamp", "CREATE", "dt", "tz"): "utcfromtimestamp() fields are UTC; pendulum.datetime defaults to tz=UTC",
-    ("from_timestamp", "CREATE", "dt", "fold"): "UTC has no repeated times",
-    ("_parse", "CREATE", "parsed", "fold"): "parsed native value carries no fold; default applies",
-    ("_normalize", "DT", "parsed", "tzinfo"): "a parsed time-of-day is combined with today's date as a naive value (pendulum.parse attaches tz later)",
-    ("_normalize", "DT", "parsed", "fold"): "parsed native value carries no fold",
-    ("Time.add", "AT", "self", "tzinfo"): "carrier is the UTC epoch; Time arithmetic is zone-less",
-    ("Time.subtract", "AT", "self", "tzinfo"): "carrier is the UTC epoch; Time arithmetic is zone-less",
+    ("DateTime.naive", "self.__class__", "self", "tzinfo"): "naive() removes the zone by definition",
+    ("DateTime.naive", "self.__class__", "self", "fold"): "a zone-less value has no ambiguity to resolve",
+    ("DateTime.add", "datetime.datetime", "self", "tzinfo"): "clock copy: the arithmetic is done on naive fields, the zone is re-attached below",
+    ("DateTime.add", "datetime.datetime", "self", "fold"): "clock copy for arithmetic; fold of the result comes from convert()",
+    ("DateTime.add", "self.__class__.create", "dt", "fold"): "calendar branch: the wall time is re-resolved with the documented default fold",
+    ("DateTime.add", "datetime.datetime", "dt", "fold"): "UTC intermediate: UTC has no repeated times",
+    ("DateTime.__sub__", "pendulum.naive", "other", "fold"): "naive operand: fold plays no role in naive subtraction",
+    ("DateTime.__rsub__", "pendulum.naive", "other", "fold"): "naive operand: fold plays no role in naive subtraction",
+    ("Interval.__init__", "datetime", "start", "fold"): "copy only feeds precise_diff's calendar decomposition (wall fields)",
+    ("Interval.__init__", "datetime", "end", "fold"): "copy only feeds precise_diff's calendar decomposition (wall fields)",
+    ("from_timestamp", "pendulum.datetime", "dt", "tz"): "utcfromtimestamp() fields are UTC; pendulum.datetime defaults to tz=UTC",
+    ("from_timestamp", "pendulum.datetime", "dt", "fold"): "UTC has no repeated times",
+    ("_parse", "pendulum.datetime", "parsed", "fold"): "parsed native value carries no fold; default applies",
+    ("_normalize", "datetime", "parsed", "tzinfo"): "a parsed time-of-day is combined with today's date as a naive value (pendulum.parse attaches tz later)",
+    ("_normalize", "datetime", "parsed", "fold"): "parsed native value carries no fold",
 }
 for _f in ("Time.closest", "Time.farthest", "Time.diff", "Time.__sub__", "Time.__rsub__"):
     for _s in ("dt1", "dt2", "dt", "other"):
-        DROPS[(_f, "TIME", _s, "tzinfo")] = "comparison helper works on naive times of day (aware operands are rejected / compared by clock)"
-        DROPS[(_f, "TIME", _s, "fold")] = "fold is irrelevant for a clock comparison"
-DROPS[("DateTime.time", "TIME", "self", "tzinfo")] = "datetime.time() is naive in the standard library too"
-DROPS[("DateTime.time", "TIME", "self", "fold")] = "kept as the drop-in of the native time(), whose fold is not observable without tzinfo"
+        DROPS[(_f, "self.__class__", _s, "tzinfo")] = "comparison helper works on naive times of day (aware operands are rejected / compared by clock)"
+        DROPS[(_f, "self.__class__", _s, "fold")] = "fold is irrelevant for a clock comparison"
+DROPS[("DateTime.time", "Time", "self", "tzinfo")] = "datetime.time() is naive in the standard library too"
+DROPS[("DateTime.time", "Time", "self", "fold")] = "kept as the drop-in of the native time(), whose fold is not observable without tzinfo"
 
 
 def check_site(ctx, s: Site, rule: str = "RECON", drops: dict | None = None,
@@ -201,8 +199,8 @@ def check_site(ctx, s: Site, rule: str = "RECON", drops: dict | None = None,
             if p in s.bound:
                 ctx.ob(f"{rule}.state", f"{s.key}/{fld}", True, f"{p}={un(s.bound[p])}", s.loc)
                 continue
-            reason = drops.get((s.func, s.kind, s.src, "tz" if p == "tz" else fld)) or \
-                drops.get((s.func, s.kind, s.src, fld))
+            reason = drops.get((s.func, s.callee, s.src, "tz" if p == "tz" else fld)) or \
+                drops.get((s.func, s.callee, s.src, fld))
             if reason:
                 ctx.ob(f"{rule}.state", f"{s.key}/{fld}", True, f"intentional drop: {reason}", s.loc,
                        nontrivial=False)
